@@ -239,9 +239,28 @@ impl<'tcx> Cx<'tcx> {
             }
         }
         if n_const == 0 {
-            return None;
+            // type-generic functions: only fully concrete instances, and only of functions that
+            // are not part of the public API (a private generic helper, a method of a private
+            // trait) - the rules address public generic functions by their generic path
+            // (an instance that still mentions the caller's own type parameters - `helper::<Header,
+            // R>` called from `pub fn f<R: Read>` - lives in the caller's generic context, like
+            // the const-generic partial instances; at least one type argument must be concrete)
+            let n_concrete = inst.args.iter().filter(|a| a.as_type().map(|t| !t.has_non_region_param()).unwrap_or(false)).count();
+            if parts.is_empty() || n_concrete == 0 {
+                return None;
+            }
+            let ld = did.expect_local();
+            let local_trait = self.tcx.trait_of_assoc(did).map(|t| t.is_local()).unwrap_or(false)
+                || self
+                    .tcx
+                    .impl_of_assoc(did)
+                    .and_then(|i| self.tcx.impl_opt_trait_ref(i))
+                    .map(|t| t.skip_binder().def_id.is_local())
+                    .unwrap_or(false);
+            if self.tcx.effective_visibilities(()).is_reachable(ld) && !local_trait {
+                return None;
+            }
         }
-        let _ = inst.args.has_non_region_param();
         Some(format!("{}::<{}>", self.path(did), parts.join(", ")))
     }
 
@@ -979,7 +998,7 @@ impl Callbacks for Extract {
                     let t = tcx.type_of(did).instantiate_identity().skip_norm_wip();
                     let env = TypingEnv::post_analysis(tcx, did);
                     let mut variants = Vec::new();
-                    for v in adt.variants() {
+                    for (vidx, v) in adt.variants().iter_enumerated() {
                         let mut fields = Vec::new();
                         for f in &v.fields {
                             let ft = tcx.type_of(f.did).instantiate_identity().skip_norm_wip();
@@ -992,12 +1011,12 @@ impl Callbacks for Extract {
                                     .end(),
                             );
                         }
-                        variants.push(
-                            Obj::new()
-                                .s("name", v.name.as_str())
-                                .raw("fields", arr(fields))
-                                .end(),
-                        );
+                        let mut vo = Obj::new().s("name", v.name.as_str()).raw("fields", arr(fields));
+                        if adt.is_enum() {
+                            // the value a `switchInt(discriminant(x))` sees for this variant
+                            vo = vo.s("discr", adt.discriminant_for_variant(tcx, vidx).val.to_string());
+                        }
+                        variants.push(vo.end());
                     }
                     let mut o = Obj::new()
                         .s("path", cx.path(did))
